@@ -10,9 +10,11 @@ against the node database on demand (including the `resolve` inside `delete`'s b
 `hasher.hash` reusing cached hashes.  These theorems say that none of this is observable:
 every operation answers what the fully loaded, flag-free model of `Props/C02.lean` answers.
 
-Hypothesis `HashOK H`: no collision among node encodings (`NoColl`: two minimal-form nodes whose
-encodings hash alike collapse alike) and no node hashes to one of the two constants `NewTrie`
-takes for "empty trie".  `Sim H lt t`: the live trie `lt` stands for the loaded trie `t`
+Hypothesis `HistoryHashOK H ops`: **among the nodes that occur in the history** (`Occurs ops`: every
+node of every intermediate trie — a finite set) no two different ones share a hash, none hashes to
+one of the two constants `NewTrie` takes for "empty trie", and digests are 32 bytes.  (A hypothesis
+over *all* nodes would be unsatisfiable by any 32-byte hash and make the theorems vacuous; an
+earlier version of this file had that flaw.)  `Sim H U lt t`: the live trie `lt` stands for the loaded trie `t`
 (`AbsR`: same shape up to unloaded subtrees whose hash is in the store; `FlagOK`: every cached
 hash is the node's hash, every clean node is in the store).
 -/
@@ -56,10 +58,11 @@ theorem delete_on_partial_trie (H : Bytes → Bytes) (st : Store) (gen : Nat) (t
     when forced), leaves a live trie that still stands for `t` (with truthful flags, whichever
     clean nodes the cache-generation rule unloaded), only adds to the store, and with a database
     stores every node of `t`. -/
-theorem hasher_spec (H : Bytes → Bytes) (hnc : NoColl H) (gen limit : Nat) (withDb : Bool) (t : Node)
-    (ht : WF t) (child : Bool) (l : LNode) (st : Store) (hs : StoreSound H st) (habs : AbsR H st child t l) :
-    HashSpec H st withDb child t (hashL H gen limit withDb l (!child) st) :=
-  hashL_spec hnc gen limit withDb t ht child l st hs habs
+theorem hasher_spec (H : Bytes → Bytes) (U : Node → Prop) (hnc : NoColl H U) (hcl : ClosedU U) (gen limit : Nat)
+    (withDb : Bool) (t : Node) (ht : WF t) (hU : U t) (child : Bool) (l : LNode) (st : Store)
+    (hs : StoreSound H U st) (habs : AbsR H st child t l) :
+    HashSpec H U st withDb child t (hashL H gen limit withDb l (!child) st) :=
+  hashL_spec hnc hcl gen limit withDb t ht hU child l st hs habs
 
 /-- **the disk path**: `decodeNode` on the RLP blob the hasher wrote for a minimal-form node
     (children embedded when < 32 bytes, otherwise 32-byte hash references; hex-prefix keys) yields
@@ -87,20 +90,29 @@ example (H : Bytes → Bytes) : WF (run [.upd [1] [2]]) ∧ (enc H (run [.upd [1
   rw [this]; decide
 
 /-- one step of the two machines: same observation, simulation preserved -/
-theorem live_step_refines (H : Bytes → Bytes) (hok : HashOK H) (F : Nat) (lt : LTrie) (t : Node)
-    (h : Sim H lt t) (hF : 2 * height t + 2 ≤ F) (hsz : (enc H t).length < 256 ^ 8) (op : Op) :
-    (lstep H F lt op).2 = (nstep H t op).2 ∧ Sim H (lstep H F lt op).1 (nstep H t op).1 :=
-  sim_step hok F h hF hsz op
+theorem live_step_refines (H : Bytes → Bytes) (U : Node → Prop) (hok : HashOK H U) (F : Nat) (lt : LTrie) (t : Node)
+    (h : Sim H U lt t) (hF : 2 * height t + 2 ≤ F) (hsz : (enc H t).length < 256 ^ 8) (hU : U t) (op : Op) :
+    (lstep H F lt op).2 = (nstep H t op).2 ∧ Sim H U (lstep H F lt op).1 (nstep H t op).1 :=
+  sim_step hok F h hF hsz hU op
+
+/-- the assumption on the hash function, restricted to the nodes that occur in the history -/
+structure HistoryHashOK (H : Bytes → Bytes) (ops : List Op) : Prop where
+  nocoll : NoColl H (Occurs ops)
+  noconst : ∀ t, Occurs ops t → WF t → H (enc H t) ≠ emptyRoot ∧ H (enc H t) ≠ List.replicate 32 0
+  len32 : ∀ x, (H x).length = 32
+
+theorem HistoryHashOK.toHashOK {H : Bytes → Bytes} {ops : List Op} (h : HistoryHashOK H ops) : HashOK H (Occurs ops) :=
+  ⟨h.nocoll, closedU_occurs ops, h.noconst, h.len32⟩
 
 /-- **unloading, reloading and caching are unobservable**: over any history of updates, deletes,
     reads, `Hash`, `Commit`, reopen, cache-limit changes and iterations, the live trie answers
     exactly what the fully loaded trie answers.  The iteration fuel only has to cover the longest
     key written (`4 * maxKeyBytes + 6`; the driver uses 8200). -/
-theorem live_run_observes (H : Bytes → Bytes) (hok : HashOK H) (F : Nat) (ops : List Op)
+theorem live_run_observes (H : Bytes → Bytes) (ops : List Op) (hok : HistoryHashOK H ops) (F : Nat)
     (hF : 4 * maxKeyBytes ops + 6 ≤ F)
     (hsz : ∀ pre, pre <+: ops → (enc H (run pre)).length < 256 ^ 8) :
-    (lrun H F LTrie.empty ops).2 = (nrun H .nil ops).2 ∧ Sim H (lrun H F LTrie.empty ops).1 (run ops) := by
-  have := lrun_sim hok F ops LTrie.empty .nil (sim_empty H) (fun pre hp => by
+    (lrun H F LTrie.empty ops).2 = (nrun H .nil ops).2 ∧ Sim H (Occurs ops) (lrun H F LTrie.empty ops).1 (run ops) := by
+  have := lrun_sim hok.toHashOK F ops LTrie.empty .nil (sim_empty H _) (fun pre hp => occurs_run hp) (fun pre hp => by
     have h1 := height_run_le pre
     have h2 := maxKeyBytes_prefix hp
     show 2 * height (run pre) + 2 ≤ F
@@ -113,34 +125,69 @@ theorem loaded_machine_state (H : Bytes → Bytes) (ops : List Op) : (nrun H .ni
   nrun_nil_state H ops
 
 /-- reads on the live trie return the last write (via `Props.C02.reads_last_write`) -/
-theorem live_reads_last_write (H : Bytes → Bytes) (hok : HashOK H) (F : Nat) (ops : List Op) (k : Bytes)
+theorem live_reads_last_write (H : Bytes → Bytes) (ops : List Op) (hok : HistoryHashOK H ops) (F : Nat) (k : Bytes)
     (hF : 4 * maxKeyBytes ops + 6 ≤ F)
     (hsz : ∀ pre, pre <+: ops → (enc H (run pre)).length < 256 ^ 8) :
     (lstep H F (lrun H F LTrie.empty ops).1 (.get k)).2 = .value (finalMap ops k) := by
-  obtain ⟨_, hs⟩ := live_run_observes H hok F ops hF hsz
+  obtain ⟨_, hs⟩ := live_run_observes H ops hok F hF hsz
   have hh := height_run_le ops
-  have := (sim_step hok F hs (by omega) (hsz ops (List.prefix_refl _)) (.get k)).1
+  have := (sim_step hok.toHashOK F hs (by omega) (hsz ops (List.prefix_refl _)) (occurs_run (List.prefix_refl _)) (.get k)).1
   rw [this]
   simp only [nstep]
   rw [C02.reads_last_write]
 
 /-- the root the live trie reports is history-independent and equals the loaded model's root
     (hence the Yellow Paper root, `Props.C02.root_eq_yellow_paper`) -/
-theorem live_root (H : Bytes → Bytes) (hok : HashOK H) (F : Nat) (ops : List Op)
+theorem live_root (H : Bytes → Bytes) (ops : List Op) (hok : HistoryHashOK H ops) (F : Nat)
     (hF : 4 * maxKeyBytes ops + 6 ≤ F)
     (hsz : ∀ pre, pre <+: ops → (enc H (run pre)).length < 256 ^ 8) :
     (lstep H F (lrun H F LTrie.empty ops).1 .hash).2 = .root (rootHash H (run ops)) ∧
     (lstep H F (lrun H F LTrie.empty ops).1 .commit).2 = .root (rootHash H (run ops)) ∧
     (lstep H F (lrun H F LTrie.empty ops).1 .reopen).2 = .root (rootHash H (run ops)) ∧
     (lstep H F (lrun H F LTrie.empty ops).1 .dbcommit).2 = .root (rootHash H (run ops)) := by
-  obtain ⟨_, hs⟩ := live_run_observes H hok F ops hF hsz
+  obtain ⟨_, hs⟩ := live_run_observes H ops hok F hF hsz
   have hh := height_run_le ops
   have hz := hsz ops (List.prefix_refl _)
-  exact ⟨(sim_step hok F hs (by omega) hz .hash).1, (sim_step hok F hs (by omega) hz .commit).1,
-    (sim_step hok F hs (by omega) hz .reopen).1, (sim_step hok F hs (by omega) hz .dbcommit).1⟩
+  have hu : Occurs ops (run ops) := occurs_run (List.prefix_refl _)
+  exact ⟨(sim_step hok.toHashOK F hs (by omega) hz hu .hash).1, (sim_step hok.toHashOK F hs (by omega) hz hu .commit).1,
+    (sim_step hok.toHashOK F hs (by omega) hz hu .reopen).1, (sim_step hok.toHashOK F hs (by omega) hz hu .dbcommit).1⟩
 
 -- non-vacuity of `Sim`: the empty live trie stands for the empty trie
-example (H : Bytes → Bytes) : Sim H LTrie.empty .nil := sim_empty H
+example (H : Bytes → Bytes) (U : Node → Prop) : Sim H U LTrie.empty .nil := sim_empty H U
+
+/-- a 32-byte toy hash (the first 32 bytes, zero padded) for the non-vacuity example below -/
+def toyHash (x : Bytes) : Bytes := (x ++ List.replicate 32 0).take 32
+
+/-- **non-vacuity of `HistoryHashOK`**: a concrete history (one write, a commit, a reopen) and a
+    concrete 32-byte hash satisfy the hypothesis of the run theorems — the only minimal-form node
+    that occurs is the leaf, and it does not hash to either constant. -/
+theorem historyHashOK_witness : HistoryHashOK toyHash [.upd [1] [2], .commit, .reopen] := by
+  have hocc : ∀ t, Occurs [.upd [1] [2], .commit, .reopen] t → WF t → t = .short [0, 1, 16] (.value [2]) := by
+    rintro t ⟨pre, hp, hm⟩ hwf
+    have hpre : pre = [] ∨ pre = [.upd [1] [2]] ∨ pre = [.upd [1] [2], .commit] ∨ pre = [.upd [1] [2], .commit, .reopen] := by
+      obtain ⟨suf, hs⟩ := hp
+      match pre, suf, hs with
+      | [], _, _ => exact Or.inl rfl
+      | [_], _, hs => simp at hs; exact Or.inr (Or.inl (by rw [hs.1]))
+      | [_, _], _, hs => simp at hs; exact Or.inr (Or.inr (Or.inl (by rw [hs.1, hs.2.1])))
+      | [_, _, _], _, hs => simp at hs; exact Or.inr (Or.inr (Or.inr (by rw [hs.1, hs.2.1, hs.2.2.1])))
+      | _ :: _ :: _ :: _ :: _, _, hs => simp at hs
+    have hruns : run pre = .nil ∨ run pre = .short [0, 1, 16] (.value [2]) := by
+      rcases hpre with rfl | rfl | rfl | rfl
+      · exact Or.inl rfl
+      · exact Or.inr rfl
+      · exact Or.inr rfl
+      · exact Or.inr rfl
+    rcases hruns with h | h
+    · rw [h] at hm; simp [subnodes] at hm; subst hm; exact absurd hwf not_WF_nil
+    · rw [h] at hm
+      simp only [subnodes, List.mem_cons, List.mem_singleton, List.not_mem_nil, or_false] at hm
+      rcases hm with rfl | rfl
+      · rfl
+      · exact absurd hwf (not_WF_value _)
+  refine ⟨fun a b ha hb wa wb _ => by rw [hocc a ha wa, hocc b hb wb], fun t ht hwf => ?_, fun x => by simp [toyHash]⟩
+  rw [hocc t ht hwf]
+  decide
 -- non-vacuity of the fuel bound: the driver's fuel covers a history with 32-byte keys
 example : 4 * maxKeyBytes [.upd (List.replicate 32 7) [1], .commit, .get (List.replicate 32 7)] + 6 ≤ 8200 := by decide
 
